@@ -250,6 +250,15 @@ func runRoundtripMode() {
 		h, res := generate(r, root, o, cfg, p)
 		stats["records"] += len(res.truths)
 		stats["steps"] += len(h.steps)
+		if len(h.gen.SetterDrops) > 0 {
+			// a float value handed to a setter / CopyFromSlice is not what the getter returns
+			// (repaired defects negzero-setter and CopyFromSlice: any occurrence is a regression)
+			sigCount["negzero-setter"]++
+			stats["propfail-negzero-setter"]++
+			if sigCount["negzero-setter"] <= maxReportsPerSig {
+				propFail("C01 negzero-setter case=%s %d float values were not stored by the setter (the getter returns other bits than were set), first: %s", name, len(h.gen.SetterDrops), h.gen.SetterDrops[0])
+			}
+		}
 		oc := checkRoundtrip(root, res)
 		if len(oc.fails) > 0 {
 			stats["failing-cases"]++
